@@ -3,6 +3,7 @@ package rules
 import (
 	"go/token"
 	"go/types"
+	"sort"
 	"strings"
 
 	"golang.org/x/tools/go/ssa"
@@ -416,7 +417,7 @@ func rule054(r *core.Run, ctx *oblig.Ctx) {
 	}
 	if fn := mustFunc(r, "s3mem.(*Backend).SetVersioningConfiguration"); fn != nil {
 		bad := ""
-		for _, f := range reachableList(r, fn) {
+		for _, f := range reachableCallbackAware(r, fn) {
 			core.Instrs(f, func(in ssa.Instruction) {
 				if c, ok := in.(ssa.CallInstruction); ok {
 					n := r.P.CalleeName(c)
@@ -428,6 +429,67 @@ func rule054(r *core.Run, ctx *oblig.Ctx) {
 		}
 		r.Check(bad == "", "R05.4", key(fname(r, fn), "no version is touched"), r.P.Pos(fn.Pos()), "changing the status mutates no object", "SetVersioningConfiguration can reach "+bad)
 	}
+}
+
+// reachableCallbackAware: the repo functions reachable from fn where a call
+// through a function-typed PARAMETER (a locking helper running the callback it
+// was given) is taken to run the closures created by the functions already on
+// the path — not every closure the helper is ever given by anybody (which is
+// what a context-insensitive call graph says). Other dynamic calls follow the
+// call graph.
+func reachableCallbackAware(r *core.Run, fn *ssa.Function) []*ssa.Function {
+	cg := r.P.CallGraph()
+	seen := map[*ssa.Function]bool{}
+	var out []*ssa.Function
+	var work []*ssa.Function
+	push := func(f *ssa.Function) {
+		if f == nil || seen[f] {
+			return
+		}
+		seen[f] = true
+		work = append(work, f)
+	}
+	push(fn)
+	for len(work) > 0 {
+		f := work[len(work)-1]
+		work = work[:len(work)-1]
+		if !r.P.IsRepo(f) {
+			if f.Synthetic != "" && r.P.PkgShort(f) != "" {
+				if n := cg.Nodes[f]; n != nil {
+					for _, e := range n.Out {
+						push(e.Callee.Func)
+					}
+				}
+			}
+			continue
+		}
+		out = append(out, f)
+		for _, a := range f.AnonFuncs {
+			push(a)
+		}
+		core.Instrs(f, func(in ssa.Instruction) {
+			c, ok := in.(ssa.CallInstruction)
+			if !ok {
+				return
+			}
+			if callee := c.Common().StaticCallee(); callee != nil {
+				push(callee)
+				return
+			}
+			if _, viaParam := c.Common().Value.(*ssa.Parameter); viaParam && !c.Common().IsInvoke() {
+				return // runs a callback created by a function on the path (already included)
+			}
+			if n := cg.Nodes[f]; n != nil {
+				for _, e := range n.Out {
+					if e.Site == c {
+						push(e.Callee.Func)
+					}
+				}
+			}
+		})
+	}
+	sort.Slice(out, func(i, j int) bool { return fname(r, out[i]) < fname(r, out[j]) })
+	return out
 }
 
 func reachableList(r *core.Run, fn *ssa.Function) []*ssa.Function {
@@ -485,7 +547,7 @@ func rule055(r *core.Run) {
 	}
 	if cb := mustFunc(r, "s3mem.(*Backend).CreateBucket"); cb != nil {
 		ok := false
-		core.Instrs(cb, func(in ssa.Instruction) {
+		core.InstrsDeep(cb, func(_ *ssa.Function, in ssa.Instruction) {
 			if c, okc := in.(*ssa.Call); okc && r.P.CalleeName(c) == "s3mem.newBucket" {
 				s := r.P.SliceOf(c.Call.Args[2], core.SliceOpts{Depth: -1})
 				if s.HasPrefix("closure:") || s.HasPrefix("func:") {
